@@ -52,7 +52,11 @@ class Spec:
                 # keep batches that contain at least one PING-ish frame
                 if any(c[0] in "PA" for c in combo):
                     batches.append("rx:" + "+".join(combo))
-        self.menu = batches + ["api:%d" % i for i in range(len(API_PAYLOADS))] + ["req", "rxbad"]
+        # the same traffic arriving in pieces: the first frame of the batch split after its 9-byte header, every later
+        # frame in a receive_data call of its own (S2: a SETTINGS frame with two entries, longer than a PING)
+        split = ["rxsplit:" + "+".join(c) for c in itertools.product(["S2", "P1", "X"], ["P0", "A3"], ["P2", "S2"])]
+        split += ["rxsplit:S2+P0", "rxsplit:X+P3", "rxsplit:P0+P1"]
+        self.menu = batches + split + ["api:%d" % i for i in range(len(API_PAYLOADS))] + ["req", "rxbad"]
 
     def initial(self):
         out = []
@@ -87,6 +91,8 @@ class Spec:
             return wire.ping(PAYLOADS[int(code[1])], ack=True)
         if code == "S":
             return wire.settings([])
+        if code == "S2":
+            return wire.settings([(3, 100), (4, 65535)])
         if code == "W":
             return wire.window_update(0, 1)
         if code == "X":
@@ -147,14 +153,32 @@ class Spec:
             if any(f.type == wire.PING for f in o.frames):
                 bad("short-ping-answered", "7-byte PING answered: %s" % o.brief())
             return Step("rx-conn-error", viols, prune=True)
-        assert lab.startswith("rx:")
-        codes = lab[3:].split("+")
+        assert lab.startswith("rx:") or lab.startswith("rxsplit:")
+        codes = lab.split(":", 1)[1].split("+")
         frames = [self._frame(st, c) for c in codes]
         pre = b""
         if st.need_preface:
             pre = wire.PREFACE
             st.need_preface = False
-        o = H.recv(conn, pre + wire.ser(frames))
+        if lab.startswith("rx:"):
+            o = H.recv(conn, pre + wire.ser(frames))
+        else:
+            first = frames[0].serialize()
+            chunks = [pre + first[:9], first[9:]] + [f.serialize() for f in frames[1:]]
+            o = None
+            for ch in chunks:
+                if not ch:
+                    continue
+                o2 = H.recv(conn, ch)
+                if o is None:
+                    o = o2
+                else:
+                    o2.events = list(o.events) + list(o2.events or [])
+                    o2.frames = list(o.frames) + list(o2.frames)
+                    o2.raw = o.raw + o2.raw
+                    o = o2
+                if o.kind == "raise":
+                    break
         exp_events = []
         exp_acks = []
         for c in codes:
